@@ -1,6 +1,8 @@
 mod props;
 mod refcbor;
 mod reqmodel;
+mod respmodel;
+mod types;
 mod run;
 mod util;
 
